@@ -25,18 +25,19 @@ import (
 const bound = 10 * time.Second
 
 type caseSpec struct {
-	Cfg        fx.Cfg
-	Before     []string // calls on the zero-value handle
-	Running    [][]string // per goroutine: calls while the engine runs
-	Conns      int
-	SlowClose  bool   // one connection's OnClose takes 700 ms (shutdown in progress is observable)
-	StopKind   string // live, expired
-	During     [][]string // per goroutine: calls fired right after the shutdown request
-	After      []string
+	Cfg       fx.Cfg
+	Before    []string   // calls on the zero-value handle
+	Running   [][]string // per goroutine: calls while the engine runs
+	Conns     int
+	SlowClose bool       // one connection's OnClose takes 700 ms (shutdown in progress is observable)
+	StopKind  string     // live, expired, register-shutdown, enroll-shutdown (a registered connection answers Shutdown)
+	ShutAt    string     // open: from OnOpen; close: OnOpen answers Close, OnClose answers Shutdown
+	During    [][]string // per goroutine: calls fired right after the shutdown request
+	After     []string
 }
 
 func (c caseSpec) String() string {
-	return fmt.Sprintf("cfg: %s\n before=%v running=%v conns=%d slowClose=%v stop=%s during=%v after=%v", c.Cfg, c.Before, c.Running, c.Conns, c.SlowClose, c.StopKind, c.During, c.After)
+	return fmt.Sprintf("cfg: %s\n before=%v running=%v conns=%d slowClose=%v stop=%s/%s during=%v after=%v", c.Cfg, c.Before, c.Running, c.Conns, c.SlowClose, c.StopKind, c.ShutAt, c.During, c.After)
 }
 
 var allCalls = []string{"validate", "count", "dup", "duplistener", "duplistener-wrong", "register-conn", "register-closedconn", "register-addr", "register-badaddr", "register-none",
@@ -45,18 +46,19 @@ var allCalls = []string{"validate", "count", "dup", "duplistener", "duplistener-
 // ---- connection state -------------------------------------------------------------------------
 
 type cstate struct {
-	s      *session
-	slow   bool
-	opens, closes int32
-	gc     gnet.Conn
-	echoed int32
+	s                 *session
+	openAct, closeAct gnet.Action // what OnOpen / OnClose answer (a registration that shuts the engine down)
+	slow              bool
+	opens, closes     int32
+	gc                gnet.Conn
+	echoed            int32
 }
 
 func (c *cstate) OnOpen(gc gnet.Conn) ([]byte, gnet.Action) {
 	atomic.AddInt32(&c.opens, 1)
 	c.gc = gc
 	atomic.AddInt32(&c.s.opened, 1)
-	return nil, gnet.None
+	return nil, c.openAct
 }
 func (c *cstate) OnTraffic(gc gnet.Conn) gnet.Action {
 	b, _ := gc.Next(-1)
@@ -69,22 +71,22 @@ func (c *cstate) OnClose(gc gnet.Conn, err error) gnet.Action {
 	}
 	atomic.AddInt32(&c.closes, 1)
 	atomic.AddInt32(&c.s.closed, 1)
-	return gnet.None
+	return c.closeAct
 }
 
 type session struct {
-	cs     caseSpec
-	e      *fx.Engine
-	eng    gnet.Engine
+	cs             caseSpec
+	e              *fx.Engine
+	eng            gnet.Engine
 	opened, closed int32
-	mu     sync.Mutex
-	fails  []string
-	target net.Listener // plain echo target for Register/Enroll
-	phase  int32        // 0 zero handle, 1 running, 2 shutdown requested, 3 stopped
-	loopOf gnet.Conn
-	execs  int32
-	regs   []*cstate
-	peers  []net.Conn
+	mu             sync.Mutex
+	fails          []string
+	target         net.Listener // plain echo target for Register/Enroll
+	phase          int32        // 0 zero handle, 1 running, 2 shutdown requested, 3 stopped
+	loopOf         gnet.Conn
+	execs          int32
+	regs           []*cstate
+	peers          []net.Conn
 }
 
 func (s *session) failf(key, f string, a ...any) {
@@ -159,6 +161,73 @@ func (s *session) oneResult(call string, ch <-chan gnet.RegisteredResult, st *cs
 		}
 		// a request accepted while the engine was shutting down may be lost with the loop's
 		// queue (same class as the known finding of C07): not judged here
+	}
+}
+
+// shutdownByRegistration registers a connection on the running engine whose
+// OnOpen (or OnClose, after OnOpen answered Close) answers Shutdown. The call was
+// accepted by a running engine and carried out (OnOpen is seen), so its single
+// result is due whatever the callbacks answered; the engine then shuts down by itself.
+func (s *session) shutdownByRegistration() {
+	st := &cstate{s: s, openAct: gnet.Shutdown}
+	if s.cs.ShutAt == "close" {
+		st.openAct, st.closeAct = gnet.Close, gnet.Shutdown
+	}
+	call := s.cs.StopKind + "/" + s.cs.ShutAt
+	rctx := gnet.NewContext(context.Background(), fx.ConnHooks(st))
+	var ch <-chan gnet.RegisteredResult
+	var err error
+	if s.cs.StopKind == "enroll-shutdown" {
+		nc, derr := net.Dial(s.target.Addr().Network(), s.target.Addr().String())
+		if derr != nil {
+			_ = s.eng.Stop(context.Background())
+			return
+		}
+		ch, err = s.loopOf.EventLoop().Enroll(rctx, nc)
+	} else {
+		ch, err = s.eng.Register(gnet.NewNetAddrContext(rctx, s.target.Addr()))
+	}
+	if err != nil || ch == nil {
+		s.failf("ctl-state", "%s on a running engine returned (%v, %v)", call, ch, err)
+		_ = s.eng.Stop(context.Background())
+		return
+	}
+	s.mu.Lock()
+	s.regs = append(s.regs, st)
+	s.mu.Unlock()
+	n := 0
+	timeout := time.After(bound)
+loop:
+	for {
+		select {
+		case r, ok := <-ch:
+			if !ok {
+				break loop
+			}
+			n++
+			if (r.Conn == nil) == (r.Err == nil) {
+				s.failf("ctl-register-result", "%s delivered {Conn: %v, Err: %v}: neither a connection nor an error", call, r.Conn, r.Err)
+			}
+		case <-timeout:
+			if atomic.LoadInt32(&st.opens) > 0 {
+				s.failf("ctl-register-result", "%s: OnOpen ran for the registered connection, but %d results were delivered and the channel was not closed within %v", call, n, bound)
+			} else {
+				s.failf("ctl-register-result", "%s was accepted by a running engine, OnOpen never ran and %d results were delivered within %v", call, n, bound)
+			}
+			_ = s.eng.Stop(context.Background())
+			return
+		}
+	}
+	if n != 1 {
+		s.failf("ctl-register-result", "%s delivered %d results before the channel was closed, want exactly one", call, n)
+	}
+	if atomic.LoadInt32(&st.opens) == 0 {
+		// the registration failed before OnOpen (dial error ...): nothing requested the shutdown
+		_ = s.eng.Stop(context.Background())
+	}
+	if _, ok := s.e.WaitDone(bound); !ok {
+		s.failf("ctl-shutdown-action", "%s: the Shutdown action of the registered connection did not make Run return within %v", call, bound)
+		_ = s.eng.Stop(context.Background())
 	}
 }
 
@@ -411,6 +480,8 @@ func runCase(cs caseSpec) (fails []string, infra string) {
 		cctx, cancel := context.WithCancel(context.Background())
 		cancel()
 		go func() { stopRes <- s.eng.Stop(cctx) }()
+	} else if strings.HasSuffix(cs.StopKind, "-shutdown") {
+		go func() { s.shutdownByRegistration(); stopRes <- nil }()
 	} else {
 		go func() { stopRes <- s.eng.Stop(context.Background()) }()
 	}
@@ -506,7 +577,8 @@ func drawCase(t *rapid.T) caseSpec {
 	}
 	cs.Conns = rapid.IntRange(1, 4).Draw(t, "conns")
 	cs.SlowClose = rapid.IntRange(0, 9).Draw(t, "slowClose") == 0
-	cs.StopKind = rapid.SampledFrom([]string{"live", "live", "expired"}).Draw(t, "stop")
+	cs.StopKind = rapid.SampledFrom([]string{"live", "live", "expired", "register-shutdown", "enroll-shutdown"}).Draw(t, "stop")
+	cs.ShutAt = rapid.SampledFrom([]string{"open", "close"}).Draw(t, "shutAt")
 	nd := rapid.IntRange(0, 3).Draw(t, "duringGoroutines")
 	for i := 0; i < nd; i++ {
 		cs.During = append(cs.During, drawCalls(t, "during", 4, allCalls))
